@@ -583,8 +583,25 @@ def disjoint(repo: Repo, chk: Check) -> None:
     chk.result(only_base, "C14.disjoint", f"{RULES}:type-sets", repo.func(RULES, "dispatch_to_dm").where,
                f"dm: {sorted(dm)}; compute: {sorted(comp)}; shared: {sorted(shared)} (split by the kernel test)",
                f"op kinds {sorted(shared - {'StreamingRegionOpBase'})} are dispatchable to both the dm and the compute core")
-    chk.observe("O-3: for an xDMA streaming region dispatch_to_dm uses any(match) and dispatch_to_compute any(not match): with a kernel that no "
-                "extension supports the op is dispatched to neither core; no registered accelerator reaches that case today")
+    # the two rules split the xDMA streaming regions by ONE test: dm takes the region iff some extension provides its kernel, compute takes it iff none does
+    fc, flc = flow_of(repo, chk, RULES, "dispatch_to_compute")
+    n_ = 0
+    for s in flc.stmts(ast.Return):
+        if not (s.reachable and isinstance(s.node.value, ast.Constant) and s.node.value.value is False):
+            continue
+        for fa in s.facts:
+            q = norm.qnf(fa.expr) if fa.kind == "atom" else None
+            if q is None or not any(isinstance(c_, ast.Call) and callee_name(c_) == "is_same_kernel" for c_ in ast.walk(q[4])):
+                continue
+            n_ += 1
+            body = norm.canon(q[4])
+            positive = q[0] == "any" and not norm.is_not(body)
+            chk.result(positive, "C14.disjoint", f"{fc.key}:xdma-complement", s.where(),
+                       "an xDMA region is kept off the compute core only if SOME extension provides its kernel (the test dispatch_to_dm accepts it by)",
+                       f"an xDMA region is kept off the compute core if `{fa.text[:110]}`: with two or more extensions that holds for every kernel, also for one that no "
+                       "extension provides - dispatch_to_dm declines it too, the region gets no guard and runs on every core")
+    if n_ == 0:
+        chk.observe("C14.disjoint xdma-complement not evaluated: dispatch_to_compute has no declining return under a quantified is_same_kernel test")
     # unconditional True for a copy / generic
     for qual, cls in (("dispatch_to_dm", ("memref.CopyOp", "CopyOp")), ("dispatch_to_compute", ("linalg.GenericOp", "GenericOp"))):
         f, fl = flow_of(repo, chk, RULES, qual)
